@@ -339,8 +339,17 @@ def _combined_client_spec(ex, st, post, result):
     tb = ex.opaque_field(post, b, 'request_template')
     same_url = eq(ex.opaque_field(post, ta, 'url'), ex.opaque_field(post, tb, 'url'))
     is_none = z3.BoolVal(isinstance(result, VNone))
-    yield ('none_iff_other_server', z3.And(z3.Implies(z3.Not(same_url), is_none), z3.Implies(same_url, z3.Not(is_none))),
-           'requests are combined exactly when both templates address the same URL; otherwise None (no combination)')
+    # ... and all their parameters other than the layer list are the same (the combined request is made with the parameters
+    # of THIS client: styles, map, sld, transparent, vendor parameters of the other one would be lost)
+    pw = [e for i, e in T.evs(st, '_params_without_layers')]
+    ok_pw = len(pw) == 2 and {0, 1} == {0 if _same(e.args[0] if e.args else e.recv, a) else 1 if _same(e.args[0] if e.args else e.recv, b) else 2 for e in pw}
+    same_params = eq(pw[0].result, pw[1].result) if len(pw) == 2 else z3.BoolVal(False)
+    combinable = z3.And(same_url, same_params) if len(pw) == 2 else z3.BoolVal(False)
+    yield ('none_iff_other_server', z3.And(z3.Implies(z3.Not(same_url), is_none),
+                                           z3.Implies(z3.Not(is_none), z3.And(z3.BoolVal(bool(ok_pw)), combinable)),
+                                           z3.Implies(combinable, z3.Not(is_none))),
+           'requests are combined exactly when both templates address the same URL AND agree in every parameter except the layer '
+           'list; otherwise None (no combination)')
     if isinstance(result, VNone):
         yield ('no_combination_no_effects', z3.BoolVal(not made and not sets), 'without combination nothing is built or changed')
         return
@@ -374,7 +383,8 @@ contract('mapproxy.client.wms:WMSClient.combined_client', props=['C14'],
          types=dict(other='opaque', query='opaque'), returns='opt[opaque]', default_callee='opaque',
          opaque_fields={'request_template': 'opaque', 'params': 'opaque', 'layers': 'list[str]', 'url': 'str'},
          stable_fields=['request_template', 'url'],
-         opaque_spec={'copy': {'pure': True}, 'WMSClient': {'pure': True}},
+         opaque_spec={'copy': {'pure': True}, 'WMSClient': {'pure': True}, '_params_without_layers': {'pure': True}},
+         opaque=['_params_without_layers'],
          trace=[_combined_client_spec])
 
 
